@@ -1,3 +1,4 @@
 import SfProps.C20
 import SfProps.C02
 import SfProps.C13
+import SfProps.C20Adpcm
